@@ -77,7 +77,13 @@ def _call(params):
         return res
     except _Timeout:
         return {"id": params["id"], "verdict": "harness-error", "detail": f"case timed out after {_TIMEOUT}s"}
-    except Exception:
+    except Exception as e:
+        from .bfs import NondeterministicReplay
+
+        if isinstance(e, NondeterministicReplay):
+            return {"id": params["id"], "verdict": "violation", "tags": ["hidden-shared-state"], "relations": 1, "margin": 0.0, "margin_at": None,
+                    "nontrivial": True, "detail": {},
+                    "violations": [{"relation": "history-replay-deterministic(no hidden shared state)", "detail": {"error": str(e)[:500]}}]}
         return {"id": params["id"], "verdict": "harness-error", "detail": traceback.format_exc()[-1500:]}
     finally:
         signal.setitimer(signal.ITIMER_REAL, 0)
